@@ -180,11 +180,30 @@ NEEDED = ["accel=0", "|accel|<=3", "r1=0", "no reversal, forward", "no reversal,
           "cannot move: neg steps & neg rate", "via:moveTimeLM"]
 
 
+def small_grid(ctx, mon):
+    """Every request with a budget of 1..3 steps, rate and acceleration in -6..6 and an accumulator at or next
+    to either end of its range (0, 1, 2^31-2, 2^31-1, clear): tiny moves are where reversals on tick 1 or 2,
+    double roots (the accumulator parabola just touching a step boundary) and exact boundary hits all
+    coincide - enumerated, not sampled.  Requests outside the statement's domain are skipped by the monitor."""
+    n = 0
+    for steps in (1, 2, 3, -1):
+        for rate in range(-6, 7):
+            for accel in range(-6, 7):
+                for accum in (0, 1, 2 ** 31 - 2, 2 ** 31 - 1, "clear"):
+                    ctx.case(["grid: exhaustive tiny moves"], ("grid", steps, rate, accel, accum))
+                    one_case(ctx, mon, steps, rate, accel, accum)
+                    n += 1
+    ctx.extra["exhaustive_subspace"] = ("steps in {1,2,3,-1} x rate, accel in -6..6 x accumulator in {0, 1, 2^31-2, 2^31-1, "
+                                        "clear}: %d requests, all enumerated" % n)
+
+
 def run(ctx):
     from .. import wtests
     wtests.run(ctx)
     mon = install(ctx)
     rng = ctx.rng
+    small_grid(ctx, mon)
+    ctx.need("grid: exhaustive tiny moves", 3000)
     from .. import longrun
     _early = longrun.Early()
     n = ctx.budget(60_000, 600_000)
